@@ -31,6 +31,7 @@ type SwarmConfig struct {
 	CoolDown  int  // last blocks of the run without faults, canary traffic only (C18 liveness evidence)
 	LatePoolAt int64 // hold the last planned pool back until this height (0 = create at once)
 	EdenCycle bool // governance cycles one pool's Eden rewards on/off/on (C13)
+	ProdBoot           bool               `json:"prod_boot,omitempty"` // replicas start the production way (constructor loads the latest version); no exact gas cuts in such a run
 	Reexec             bool               `json:"reexec"`         // re-execute the block log in a fresh OS process
 	ReexecDumpAt       int64              `json:"reexec_dump_at"` // height at which the reference DB is dumped for the resume variant
 	RestartEveryHeight bool               `json:"restart_every_height"`
